@@ -122,6 +122,14 @@ func c18GenSeed(r *core.Rng) string {
 	if r.P(12) {
 		return c18LiteralSeed(r)
 	}
+	if r.P(3) {
+		// a bare character whose code point equals one of the generated parser's token numbers, where a value,
+		// a clause or a statement may start
+		pua := string(rune(0xE000 + r.Intn(0x130)))
+		tails := []string{"", " = 1", " FROM t", "(1)", " 1", "::x", " AS a", ", 2"}
+		heads := []string{"SELECT ", "SELECT 1 WHERE ", "", "SELECT 1 FROM t ORDER BY ", "PREPARE p FROM 'SELECT 1'; EXECUTE p USING ", "VAR @a := "}
+		return heads[r.Intn(len(heads))] + pua + tails[r.Intn(len(tails))]
+	}
 	switch r.Intn(8) {
 	case 0:
 		return genQueryC03(r).SQL()
@@ -177,8 +185,17 @@ func c18Mutate(r *core.Rng, s string) string {
 			}
 		case 6: // insert special runes
 			sp := []string{"\x00", "\ufeff", "\u3000", "🙂", "\xff\xfe", "\\'", "''", "\"\"", "``", "\r\n", "\t"}
+			ins := sp[r.Intn(len(sp))]
+			if r.P(40) {
+				// code points in the range a generated parser uses for its token numbers (the private-use area from U+E000),
+				// plus a few neighbours of other planes: a character that reaches the grammar as if it were a token
+				ins = string(rune([]int{0xE000, 0xE002, 0xE100, 0xF000, 0x10FFFF, 0xD7FF, 0x80, 0x100}[r.Intn(8)] + r.Intn(0x130)))
+				if r.P(50) {
+					ins = " " + ins + " "
+				}
+			}
 			i := r.Intn(len(b) + 1)
-			b = append(b[:i], append([]byte(sp[r.Intn(len(sp))]), b[i:]...)...)
+			b = append(b[:i], append([]byte(ins), b[i:]...)...)
 		case 7: // splice with another seed
 			o := []byte(c18GenSeed(r))
 			if len(o) > 0 && len(b) > 0 {
